@@ -87,3 +87,7 @@ ITEMS = _rebased(_m.ITEMS) + [
 # functions behind the ASSUMED repair_tc contract (reviewed, not verified): a change to them makes this unit's answer 'undecided'
 WATCH = [('cedar-policy-core/src/transitive_closure.rs', 'fn repair_tc'), ('cedar-policy-core/src/transitive_closure.rs', 'fn compute_tc_internal'),
          ('cedar-policy-core/src/transitive_closure.rs', 'fn add_ancestors')]
+# mechanisms of C04 that no unit covers (listed as such in DESIGN / MANIFEST): a change to them cannot be decided by this check
+UNCOVERED = [('cedar-policy-core/src/entities.rs', 'impl Entities > fn upsert_entities'), ('cedar-policy-core/src/entities.rs', 'impl Entities > fn remove_entities'),
+             ('cedar-policy-core/src/entities.rs', 'impl Entities > fn from_entities'),
+             ('cedar-policy-core/src/transitive_closure.rs', 'fn compute_tc'), ('cedar-policy-core/src/transitive_closure.rs', 'fn cyclic_tc'), ('cedar-policy-core/src/transitive_closure.rs', 'fn cyclic_tc_internal')]
